@@ -95,7 +95,12 @@ func (p *Parser) parseNotationInComments(notations []*ast.Comment, validOps map[
 			if len(args) == 0 {
 				return logger.Errorf("%v: needs <field> arg", p.fset.Position(n.Pos()))
 			}
-			matcher, err := option.NewPatternMatcher(args[0], opts.ExactCase)
+			pattern := args[0]
+			if rest := strings.TrimSpace(m[2]); strings.HasPrefix(rest, "/") && strings.HasSuffix(rest, "/") && 1 < len(rest) {
+				// A /regexp/ may contain white space: it is the whole rest of the line.
+				pattern = rest
+			}
+			matcher, err := option.NewPatternMatcher(pattern, opts.ExactCase)
 			if err != nil {
 				return logger.Errorf("%v: invalid regexp", p.fset.Position(n.Pos()))
 			}
